@@ -552,6 +552,7 @@ fn dec_sets(
     end: usize,
     limit: Option<usize>,
     cache: &mut Cache,
+    stop_at_unknown: bool,
 ) -> Result<(Vec<RefSet>, usize), NonConf> {
     let mut sets = vec![];
     let mut p = base;
@@ -602,6 +603,7 @@ fn dec_sets(
                 }
             }
         };
+        let unknown = matches!(rb, RefBody::UnknownTemplate);
         sets.push(RefSet {
             id,
             length,
@@ -609,6 +611,10 @@ fn dec_sets(
             body: rb,
         });
         p += length as usize;
+        if unknown && stop_at_unknown {
+            // model of "decoding of this message stops at the undecodable set"
+            return Ok((sets, end));
+        }
     }
     Ok((sets, p))
 }
@@ -628,7 +634,7 @@ pub fn dec_v9(buf: &[u8], cache: &mut Cache) -> Result<RefPkt, NonConf> {
         be32(buf, 12),
         be32(buf, 16),
     ];
-    let (sets, end) = dec_sets(Proto::V9, buf, 20, buf.len(), Some(count as usize), cache)?;
+    let (sets, end) = dec_sets(Proto::V9, buf, 20, buf.len(), Some(count as usize), cache, false)?;
     Ok(RefPkt {
         proto: Proto::V9,
         header,
@@ -639,6 +645,12 @@ pub fn dec_v9(buf: &[u8], cache: &mut Cache) -> Result<RefPkt, NonConf> {
 
 /// RFC 7011 message at the start of `buf`.
 pub fn dec_ipfix(buf: &[u8], cache: &mut Cache) -> Result<RefPkt, NonConf> {
+    dec_ipfix_opts(buf, cache, false)
+}
+
+/// `stop_at_unknown`: sets after the first set without a template are neither decoded nor
+/// learned from (the library's documented many0 behaviour, C07)
+pub fn dec_ipfix_opts(buf: &[u8], cache: &mut Cache, stop_at_unknown: bool) -> Result<RefPkt, NonConf> {
     if buf.len() < 16 || be16(buf, 0) != 10 {
         return nc("short or not ipfix");
     }
@@ -647,7 +659,7 @@ pub fn dec_ipfix(buf: &[u8], cache: &mut Cache) -> Result<RefPkt, NonConf> {
         return nc("message length out of range");
     }
     let header = vec![length as u32, be32(buf, 4), be32(buf, 8), be32(buf, 12)];
-    let (sets, end) = dec_sets(Proto::Ipfix, buf, 16, length, None, cache)?;
+    let (sets, end) = dec_sets(Proto::Ipfix, buf, 16, length, None, cache, stop_at_unknown)?;
     if end != length {
         return nc("sets do not fill the message");
     }
